@@ -483,6 +483,11 @@ type ReplayFile struct {
 	Schedule    []string `json:"schedule,omitempty"`
 	OrigChoices int      `json:"orig_choices"`
 	Sample      any      `json:"sample,omitempty"`
+	// WarmupRuns > 0: the violation depends on state that Helios keeps at process level
+	// (package variables such as a sync.Pool) and that earlier simulated runs of the same
+	// process left behind: the replay first executes the WarmupRuns runs that precede Index
+	// (same scenario, seeds derived from BaseSeed as in exploration), then the trace.
+	WarmupRuns uint64 `json:"warmup_runs,omitempty"`
 }
 
 func hasFingerprint(x *X, prop, fp string) bool {
@@ -513,7 +518,20 @@ func minimise(t *testing.T, sc *Scenario, job *Job, trace choice.Trace, prop, fp
 			return nil, false
 		}
 		if hasFingerprint(x, prop, fp) {
-			return x.C.Recorded(), true
+			// Selection bias: in the system simulation the order of goroutines inside one
+			// quiescence step is the Go scheduler's, and a shrinker that tries thousands of
+			// candidates would drift towards traces that violate only once in a while. A
+			// candidate is therefore accepted only if its recorded trace violates again, twice.
+			eff := x.C.Recorded()
+			for i := 0; i < 2; i++ {
+				runs++
+				y := newX(sc.Name, choice.Replay(eff))
+				y.Prop, y.Tier = job.Property, job.Tier
+				if o := execRun(t, sc, y); o.HarnessErr != "" || !hasFingerprint(y, prop, fp) {
+					return nil, false
+				}
+			}
+			return eff, true
 		}
 		return nil, false
 	}
@@ -748,7 +766,16 @@ func doMinimise(t *testing.T, job *Job) {
 	if err := writeReplay(t, sc, job, fv, min, rf.Choices.Len()); err != nil {
 		t.Fatalf("write replay: %v", err)
 	}
-	b, _ := json.Marshal(map[string]any{"minimise_runs": runs, "choices": min.Len(), "orig_choices": rf.Choices.Len()})
+	verify := 0
+	for i := 0; i < 3; i++ {
+		vx := newX(sc.Name, choice.Replay(min))
+		vx.Prop, vx.Tier = job.Property, job.Tier
+		execRun(t, sc, vx)
+		if hasFingerprint(vx, rf.Property, rf.Fingerprint) {
+			verify++
+		}
+	}
+	b, _ := json.Marshal(map[string]any{"minimise_runs": runs, "choices": min.Len(), "orig_choices": rf.Choices.Len(), "final_verify_of_3": verify})
 	if err := os.WriteFile(job.Out, b, 0o644); err != nil {
 		t.Fatalf("write: %v", err)
 	}
@@ -777,6 +804,18 @@ func doReplay(t *testing.T, job *Job) {
 	var x *X
 	var out runOutcome
 	tries := 0
+	if rf.WarmupRuns > 0 {
+		from := uint64(0)
+		if rf.Index > rf.WarmupRuns {
+			from = rf.Index - rf.WarmupRuns
+		}
+		for i := from; i < rf.Index; i++ {
+			runSeed := choice.Mix(rf.BaseSeed, sc.Name, i)
+			wx := newX(sc.Name, choice.New(runSeed))
+			wx.Prop, wx.Tier, wx.Seed, wx.Index = rf.Property, rf.Tier, runSeed, i
+			execRun(t, sc, wx)
+		}
+	}
 	for {
 		tries++
 		x = newX(sc.Name, choice.Replay(rf.Choices))
